@@ -310,12 +310,16 @@ EXPECT = ["C04.building_a_chain_leaves_the_callers_model_untouched", "C04.mu_h_i
           "C04.small_jump_variance_added_for_infinite_variation", "C04.copula_margin_mean"]
 
 
+# reference replays run when the symbolic run of a harness ends in an exception of the code under analysis (see runner.run_check)
+ERROR_REPLAYS = {"mean.": (replay_mean, {"nl": 2, "nr": 2}), "copula.": (replay_copula_margins, {})}
+
+
 def main(tier):
     bounds = {"grids": "1-d symbolic grids up to 2+1 points (quick) / 3+3 points and 1 refinement (thorough); truncation bounds anywhere relative to +-1",
               "representations": "all four, finite/infinite activity and variation",
               "outside": "n-d small-jump covariance (vol_adjustment_ij: nquad in a process pool, sqrtm); the per-cell oscillation bound on x^2 "
                          "(a property of the measure, not of the code); omega of the exponential models (C10): model.drift() is an arbitrary symbol here"}
-    return run_check(PID, tier, harnesses(tier), expect=EXPECT, bounds=bounds,
+    return run_check(PID, tier, harnesses(tier), expect=EXPECT, error_replays=ERROR_REPLAYS, bounds=bounds,
                      assumptions=COMMON_ASSUMPTIONS + ["abstract Lévy measure with additive cumulative moment functions L_k/T_k, k <= 2",
                                                        "sqrt as UF with sqrt(t)^2 = t, sqrt >= 0"])
 
